@@ -78,14 +78,16 @@ where
         }
         if self.q_vals.len() >= self.window_len {
             let old = *self.q_vals.front().unwrap();
+            self.q_vals.pop_front();
+            self.q_vals.push_back(view_last);
             if old <= self.min || old >= self.max {
                 let (min, max) = extent_queue(&self.q_vals);
                 self.min = min;
                 self.max = max;
             }
-            self.q_vals.pop_front();
+        } else {
+            self.q_vals.push_back(view_last);
         }
-        self.q_vals.push_back(view_last);
         if view_last > self.max {
             self.max = view_last;
         }
